@@ -96,6 +96,7 @@ struct ConfigWorld : World {
 		{ Sut s; mpt_config_set(0, 0, 0, sep, 0); } // clear the process-wide configuration through its own API
 		config::root *priv; { Sut s; priv = new config::root; }
 		config_item *kept_item = 0;
+		std::set<PathV> view_base_made;
 		// sub-tree views
 		metatype *vmt[2] = {0, 0}; config *vcfg[2] = {0, 0};
 		const PathV vprefix[2] = {PathV{"a"}, PathV{"a", "b"}};
@@ -190,7 +191,11 @@ struct ConfigWorld : World {
 					if (!fired && !(holder == 3 && kept_item)) fail("refused-valid", "assignment of %zu bytes to '%s' through holder %d refused (%d) without allocation fault", vl, short_path(rel).c_str(), holder, rc);
 					if (!fired) st.hit("probe:assignment_refused_beside_item_copy");
 					// a failed assignment may have created intermediate nodes without values; values must be untouched
-					partial[store] = true;
+					// (the private C++ configuration may keep unnamed, unused slots of a path it could not finish; the process-wide one takes back
+					// what the failed call had already linked)
+					if (store == 1) partial[store] = true;
+					// (a sub-tree view makes the element it stands on before it assigns beneath it; that element - nothing else - may stay when the assignment fails)
+					if (holder == 1 || holder == 2) { PathV pre; for (auto &e : vprefix[holder - 1]) { pre.push_back(e); view_base_made.insert(pre); } }
 					outcome = 0;
 				} else {
 					MNode *mn = find(model[store], abs, true); mn->has_value = true; mn->value = val; outcome = 1;
@@ -243,7 +248,7 @@ struct ConfigWorld : World {
 					// the plain existence query: present for what was assigned and not removed (and for what lies above such a path), absent otherwise
 					mpt::path ep; ep.sep = sep; ep.assign = 0; Block eb(ps.size() + 1, 0); memcpy(eb.p, ps.c_str(), ps.size() + 1);
 					int ex; { Sut s; mpt_path_set(&ep, (const char *) eb.p, -1); ex = mpt_config_query(conf, &ep, 0, 0); }
-					if (!mn && ex >= 0 && !partial[store]) fail("ghost-path", "path '%s' was never assigned (or was removed) but holder %d reports it as present (%d)", short_path(rel).c_str(), holder, ex);
+					if (!mn && ex >= 0 && !partial[store] && !(store == 0 && view_base_made.count(abs))) fail("ghost-path", "path '%s' was never assigned (or was removed) but holder %d reports it as present (%d)", short_path(rel).c_str(), holder, ex);
 					if (mn && ex < 0) fail("lost-path", "path '%s' exists (assigned, or above an assigned path) but holder %d reports it as absent (%d)", short_path(rel).c_str(), holder, ex);
 				}
 				if (mn && mn->has_value) {
